@@ -38,7 +38,9 @@ AllKinds == << "nil", "bool", "int", "int_neg", "int8", "int64", "uint", "uint8"
                \* functions that return NO value (any number of arguments); a struct with such a method (Touch)
                "func_void", "func_void_variadic",
                \* structs (and a pointer to one) that promote String() / HTML() from an embedded pointer / interface that is nil
-               "struct_embeds_nil_time", "struct_embeds_nil_stringer", "struct_embeds_nil_htmler", "ptr_struct_embeds_nil_duration" >>
+               "struct_embeds_nil_time", "struct_embeds_nil_stringer", "struct_embeds_nil_htmler", "ptr_struct_embeds_nil_duration",
+               \* functions whose last result is of a NON-pointer type that implements error (a struct, a string kind); returning the zero value / a failure
+               "func_valerr_zero", "func_valerr_set", "func_strerr" >>
 \* a smaller set for the third variable of three-variable forms
 ValueKinds == << "nil", "int", "str", "float64", "bool", "slice_any", "map_str_any", "struct", "ptr_struct", "func0" >>
 KindSet(s) == {s[i] : i \in 1..Len(s)}
@@ -169,6 +171,8 @@ FormsOf(fam) ==
            [n |-> "iso:selfinspect", vars |-> 0, src |-> C(<<"let", " ", "x", " ", "=", " ", "[", "1", "]">>) \o C(<<"x", "[", "0", "]", " ", "=", " ", "x">>) \o E(<<"inspect", "(", "x", ")">>)],
            [n |-> "iso:selfidx", vars |-> 0, src |-> C(<<"let", " ", "x", " ", "=", " ", "[", "1", "]">>) \o C(<<"x", "[", "0", "]", " ", "=", " ", "x">>) \o E(<<"x", "[", "x", "]">>)],
            [n |-> "iso:selfarg", vars |-> 0, src |-> C(<<"let", " ", "x", " ", "=", " ", "[", "1", "]">>) \o C(<<"x", "[", "0", "]", " ", "=", " ", "x">>) \o E(<<"capitalize", "(", "x", ")">>)],
+           \* a time value printed while TIME_FORMAT is bound to whatever a is
+           [n |-> "timefmt", vars |-> 2, src |-> C(<<"let", " ", "TIME_FORMAT", " ", "=", " ", "a">>) \o E(<<"b">>) \o E(<<"[", "b", "]">>)],
            [n |-> "forval", vars |-> 1, src |-> E(<<"for", " ", "(", "v", ")", " ", "in", " ", "[", "a", "]", " ", "LBR", " ", "%>", "<%=", " ", "v", " ", "%>", "<%", " ", "RBR">>)] }
 
 \* ---- family "nested": expression forms composed to depth two, outer(a := (inner(a, c)), b); explored by simulation
